@@ -39,6 +39,9 @@ func modelCheck(o *op, r obs) error {
 	if r.Panic != "" {
 		return failf("model panic "+o.Kind, "%s panicked: %s", desc, r.Panic)
 	}
+	if r.Unstable != "" {
+		return failf("model unstable "+o.Kind, "%s called %d times in a row did not keep returning the same result: %s", desc, o.Repeat, r.Unstable)
+	}
 	if r.Mutated {
 		return failf("model mutated-entropy", "%s modified the caller's entropy slice (or its spare capacity)", desc)
 	}
@@ -277,6 +280,7 @@ func drawOp(rt *rapid.T, p *opPool, single bool, allowSeed bool) op {
 		i := rapid.IntRange(0, len(p.texts)-1).Draw(rt, "text")
 		o.Text = text(p.texts[i])
 		o.Pass = text(rapid.SampledFrom([]string{"", "TREZOR", "\u00e9\uff21"}).Draw(rt, "pass"))
+		o.Wipe = rapid.Bool().Draw(rt, "wipe")
 	case "string":
 		o.Lang = rapid.OneOf(rapid.Int64Range(-2, 11), rapid.Just(pickLang())).Draw(rt, "strlang")
 	}
